@@ -156,14 +156,17 @@ impl SyncBlocker {
         })
     }
 
+    // the waiter and the waker each write their own flag and then read the
+    // other one: without sequential consistency both could miss the other's write
+    // (store buffering) and the resource would be handed to a waiter that is gone
     #[inline]
     pub fn is_unparked(&self) -> bool {
-        self.unparked.load(Ordering::Acquire)
+        self.unparked.load(Ordering::SeqCst)
     }
     // set the Flag for the release action
     #[inline]
     pub fn set_release(&self) {
-        self.release.store(true, Ordering::Release);
+        self.release.store(true, Ordering::SeqCst);
         #[cfg(may_verif)]
         crate::verif::label("syncblocker.set_release", self as *const _ as usize);
     }
@@ -171,7 +174,7 @@ impl SyncBlocker {
     // take the release Flag
     #[inline]
     pub fn take_release(&self) -> bool {
-        self.release.swap(false, Ordering::Acquire)
+        self.release.swap(false, Ordering::SeqCst)
     }
 
     #[inline]
@@ -182,6 +185,6 @@ impl SyncBlocker {
     #[inline]
     pub fn unpark(&self) {
         self.blocker.unpark();
-        self.unparked.store(true, Ordering::Release);
+        self.unparked.store(true, Ordering::SeqCst);
     }
 }
